@@ -13,7 +13,9 @@ def check(ctx):
         "span_id / (flags & 1) == 1, and parses only when four fields are present and the fifth is absent; FromStr and "
         "Deserialize parse the type/radix Display writes; R3 every from_str_radix result flows only into ok()+`?` (decoder) "
         "or map/map_err (FromStr/Deserialize); R4 the eleven codec functions contain no Assert terminator and no "
-        "panicking callee; R5 SpanContext::new and sampled() are field-wise (what the decoder builds is what was parsed).")
+        "panicking callee; R5 SpanContext::new and sampled() are field-wise (what the decoder builds is what was parsed); R6 each field "
+        "reaches from_str_radix only past a test of its characters (from_str_radix accepts a leading '+'); R7 no test of a "
+        "parsed value leads to a None result.")
     ctx.not_decided = ("the round-trip equation and the exact rejection set over all strings (value level: belongs to "
                        "symbolic or proof tools); behaviour of core's from_str_radix / fmt (trusted).")
     facts = ctx.facts("E")
@@ -21,5 +23,7 @@ def check(ctx):
     codec.rule_reader_agrees(ctx, facts, "R2", table or {})
     codec.rule_error_discipline(ctx, facts, "R3")
     codec.rule_no_panic_sites(ctx, facts, "R4")
+    codec.rule_sign_rejected(ctx, facts, "R6")
+    codec.rule_values_not_tested(ctx, facts, "R7")
     from .. import provrules
     provrules.rule_context_constructors(ctx, facts, "R5")
